@@ -369,13 +369,21 @@ func headerlessCorpus(o *hc.Out, bin, scratch string) {
 		{"ltsv_all_deleted", nil, "UPDATE `f0.csv` SET v = v + 1; DELETE FROM `g2.ltsv`; SELECT COUNT(*) FROM `g2.ltsv`;", map[string]string{"f0.csv": "v\n2\n3\n", "g2.ltsv": ""}},
 		{"no_header_csv_all_deleted", []string{"--no-header", "--without-header"}, "UPDATE `f0.csv` SET c1 = 'x' WHERE c1 = '1'; DELETE FROM `h.csv`;", map[string]string{"h.csv": ""}},
 		{"created_without_header", []string{"--without-header"}, "CREATE TABLE `n.csv` (a, b); UPDATE `f0.csv` SET v = v + 1;", map[string]string{"n.csv": "", "f0.csv": "2\n3\n"}},
+		// a change to a value that is EQUAL under csvq's loose `=` (other letter case, other number notation, blanks) is
+		// still a change of the table the procedure saw, and reaches the file
+		{"update_to_loosely_equal_number", nil, "UPDATE `f0.csv` SET v = v || '.0'; SELECT * FROM `f0.csv`;", map[string]string{"f0.csv": "v\n1.0\n2.0\n"}},
+		{"update_to_other_letter_case", nil, "UPDATE `w.csv` SET name = UPPER(name), n = ' ' || n; SELECT * FROM `w.csv`;", map[string]string{"w.csv": "name,n\nAB, 1\nCD, 2\n"}},
+		{"update_loosely_equal_then_commit_then_error", nil, "UPDATE `w.csv` SET name = UPPER(name); COMMIT; UPDATE `w.csv` SET name = LOWER(name); SELECT 1 / 0;", nil},
+		// the session's WITHOUT_HEADER flag is about query output: a table file that has a header line keeps it
+		{"without_header_flag_existing_table", []string{"--without-header"}, "UPDATE `f0.csv` SET v = v + 1;", map[string]string{"f0.csv": "v\n2\n3\n"}},
+		{"without_header_set_in_procedure", nil, "SET @@WITHOUT_HEADER TO TRUE; INSERT INTO `w.csv` VALUES ('ef', 3); COMMIT; SELECT name FROM `w.csv`;", map[string]string{"w.csv": "name,n\nab,1\ncd,2\nef,3\n"}},
 		{"header_set_to_false", nil, "ALTER TABLE `f0.csv` SET HEADER TO FALSE; DELETE FROM `f0.csv`; INSERT INTO `g2.ltsv` (k, v) VALUES ('c', 9);", map[string]string{"f0.csv": "", "g2.ltsv": "k:a\tv:1\nk:b\tv:2\nk:c\tv:9\n"}},
 	}
 	for _, c := range cases {
 		dx := filepath.Join(scratch, "c01-hl-"+c.name)
 		_ = os.RemoveAll(dx)
 		_ = os.MkdirAll(dx, 0o755)
-		before := map[string]string{"f0.csv": "v\n1\n2\n", "g2.ltsv": "k:a\tv:1\nk:b\tv:2\n", "h.csv": "5\n6\n"}
+		before := map[string]string{"f0.csv": "v\n1\n2\n", "g2.ltsv": "k:a\tv:1\nk:b\tv:2\n", "h.csv": "5\n6\n", "w.csv": "name,n\nab,1\ncd,2\n"}
 		for n, b := range before {
 			_ = os.WriteFile(filepath.Join(dx, n), []byte(b), 0o644)
 		}
@@ -396,6 +404,12 @@ func headerlessCorpus(o *hc.Out, bin, scratch string) {
 					rep["file"], rep["want"] = n, w
 					o.Law("normal_end_did_not_publish", rep)
 				}
+			}
+		} else if c.name == "update_loosely_equal_then_commit_then_error" {
+			// the explicit COMMIT in the middle published the upper-cased names; the rest was rolled back
+			if after["w.csv"] != "name,n\nAB,1\nCD,2\n" {
+				rep["file"], rep["want"] = "w.csv", "name,n\nAB,1\nCD,2\n"
+				o.Law("commit_did_not_publish", rep)
 			}
 		} else {
 			for n, b := range before {
